@@ -440,15 +440,14 @@ _extend("C10",
     assumptions=["crosschunk: the hook recovers rewritten import() records from record.Path.Text == chunk uniqueKey; DeclUnique and NonJSDeclareNothing (driver checks decl-unique / nonjs-chunk on every build); uint32 overflow of the rename counter ignored"])
 
 # exportmatch (C02): import/export matching against ECMA-262 ResolveExport
-# (held back until the model follows the fix of the D1 defect: see DESIGN.md A.8)
-_HELD("C02",
+_extend("C02",
     lean_modules=["EsbuildModel.Props.C02ExportMatch"],
     theorems=_thms("C02ExportMatch", "import_binds_to_spec_binding resolvedExports_eq_spec resolvedExports_keys_eq_exportedNames export_aliases_eq_namespace_exports linker_model_total"),
     kernels=[("exportmatch", 800, 60000)],
     open=["ExportMatch: hasDynamicExportsDueToExportStar / recursivelyWrapDependencies (steps 1-2 of scanImportsAndExports), error texts, reExports dependency lists, symbol flags are not modelled",
-          "ExportMatch.import_binds_to_spec_binding without LocInj: FALSE on the real code (known finding c02-ambiguous-same-binding-different-clause); without NoReexportCycle: FALSE (known finding c02-reexport-cycle-false-ambiguity)"],
+          "ExportMatch.import_binds_to_spec_binding without NoReexportCycle: FALSE on the real code (the tracker reports an ambiguity where ECMA-262 skips a circular re-export path next to a real binding; known finding c02-reexport-cycle-false-ambiguity); the former hypothesis LocInj is gone since the fix of the same-binding-different-clause defect"],
     scope="internal/linker/linker.go scanImportsAndExports steps 3-5: addExportsForExportStar, advanceImportTracker, matchImportWithExport, matchImportsWithExportsForFile, the ambiguity filter behind SortedAndFilteredExportAliases, and the initial ResolvedExports of internal/graph/graph.go are modelled in full (incl. CommonJS / dynamic-fallback / external / TypeScript branches; Impl/ExportMatch.lean) and tied through the exports observation hook on real builds; the theorems relate the ESM-only part to ECMA-262 16.2.1.7 GetExportedNames / ResolveExport (Spec/EsModules.lean)",
-    assumptions=["exportmatch: Spec/EsModules.lean is my transcription of ECMA-262 GetExportedNames/ResolveExport (compared by its author with Node 20 on 1100 random export graphs: 0 disagreements apart from two V8 deviations); toSpec reads an exported namespace import as `export * as ns from` (the linker's tables cannot tell it from `import * as ns; export {ns}`); hypotheses WF, EsmOnly, LocInj, NoReexportCycle, ReexportsLink, each necessary (counterexamples in the Props file)"])
+    assumptions=["exportmatch: Spec/EsModules.lean is my transcription of ECMA-262 GetExportedNames/ResolveExport (compared by its author with Node 20 on 1100 random export graphs: 0 disagreements apart from two V8 deviations); toSpec reads an exported namespace import as `export * as ns from` (the linker's tables cannot tell it from `import * as ns; export {ns}`); hypotheses WF (parser guarantees), EsmOnly, NoReexportCycle, ReexportsLink; the last two are necessary (counterexample tables in the Props file)"])
 
 # objrest (C05): object spread / rest lowering
 _extend("C05",
